@@ -94,7 +94,14 @@ def gen_hand(rng):
         return M.Outer.Inner(v=rng.choice([None, 0, 5]), deep=rng.choice([None, M.Outer.Inner.Deep.X, M.Outer.Inner.Deep.Y]),
                              deeps=[rng.choice(list(M.Outer.Inner.Deep)) for _ in range(rng.randrange(0, 3))])
 
-    kind = rng.randrange(5)
+    kind = rng.randrange(6)
+    if kind == 5:
+        # two modules with classes of the same name (and a model called Decimal next to decimal.Decimal)
+        from vf.props import c18_models_b as B
+
+        return B.Both(here=rng.choice([None, B.Outer(title="t", shade=B.Color.BLUE)]), there=rng.choice([None, M.Outer(kind=M.Outer.Kind.A), inner()]),
+                      colors=[rng.choice(list(M.Color) + list(B.Color)) for _ in range(rng.randrange(0, 4))],
+                      amount=rng.choice([None, B.Decimal(value=Decimal("1.50"), places=2), B.Decimal()]))
     if kind == 4:
         pick = lambda *xs: rng.choice(xs)  # noqa: E731
         return M.Defaults(lang=pick(None, "en", "fr", ""), indent=pick(None, 2, 0), ratio=pick(None, 1.5, 0.0), tags=pick(None, [], ["a"]), color=pick(None, *list(M.Color)),
